@@ -1,7 +1,6 @@
 #!/usr/bin/env python3
 # adaptation_24_mounts.txt is derived from adaptation_23_devices.txt (adjustMounts has the
-# same four loops as adjustDevices, keyed by Destination) plus loop 5, which forwards the
-# removal markers that have no set in the same response.
+# same five loops as adjustDevices, keyed by Destination).
 import re, os
 here = os.path.dirname(os.path.abspath(__file__))
 s = open(os.path.join(here, "adaptation_23_devices.txt")).read()
@@ -14,19 +13,4 @@ for a, b in [("reply(r).Linux.Devices", "reply(r).Mounts"), ("view(r).Linux.Devi
              ("devCons(", "mntCons("), ("devices", "mounts"), ("Devices (result.go: adjustDevices)", "Mounts (result.go: adjustMounts)"),
              ("device", "mount")]:
     s = s.replace(a, b)
-k = "//@   loop 1 invariant forall p string :: has(mod, p) ==> (exists j int"
-i = s.index(k); j = s.index("\n", i) + 1
-s = s[:j] + "//@   loop 1 invariant forall p string :: has(del, p) ==> allocated(del[p]) && inM(mounts, del[p]) && del[p].Destination == \"-\" + p\n" + s[j:]
-s += '''// loop 5: forward the removal markers that have no set in this response (ranges over del)
-//@   loop 5 modifies reply(r).Mounts, elems(mntD(r))
-//@   loop 5 invariant wfCreate(r) && cid(r) == old(cid(r)) && create == r.request.create
-//@   loop 5 invariant (base(mntD(r)) == pre(base(mntD(r))) || prefresh(mntD(r))) && sep(base(mntD(r)), base(add)) && sep(base(mntD(r)), base(mntW(r))) && sep(base(mntD(r)), base(mounts))
-//@   loop 5 invariant len(mntD(r)) >= pre(len(mntD(r))) && (forall k int :: 0 <= k && k < pre(len(mntD(r))) ==> mntD(r)[k] == pre(mntD(r)[k]))
-//@   loop 5 invariant forall j string :: visited(j) ==> has(del, j)
-//@   loop 5 invariant forall k string :: visited(k) && !has(mod, k) ==> inM(mntD(r), del[k])
-//@   loop 5 invariant old(mntCons(r)) ==> mntCons(r)
-//@   loop 5 invariant forall j int :: 0 <= j && j < len(mounts) && !markedK(mounts[j].Destination) ==> inM(mntD(r), mounts[j])
-'''
-s = re.sub(r"//@   ensures \[reply.gone\].*\n", '//@   ensures [fwd] @thorough result == nil ==> (forall p string :: rmM(mounts, p) && !setM(mounts, p) ==> (exists i int :: 0 <= i && i < len(mntD(r)) && mntD(r)[i].Destination == "-" + p))\n', s)
-s = s.replace("//@   ensures [view.gone.set] result", "//@   ensures [view.gone.set] @thorough result")
 open(os.path.join(here, "adaptation_24_mounts.txt"), "w").write(s)
